@@ -510,6 +510,9 @@ struct DeflateSession {
                         } else if (kind == 1) { // dictionary call at an arbitrary moment
                                 if (!late_dict((uint32_t) op.ai(1), (uint64_t) op.ai(2)))
                                         return;
+                        } else if (kind == 4) { // invalid parameter injected at a later call (C10): refusal without side effects, then the session is over
+                                inject_invalid((int) op.ai(1), (uint64_t) op.ai(2));
+                                return;
                         } else if (kind == 2) { // hufftables call at an arbitrary moment
                                 int ty = (int) ((uint64_t) op.ai(1) % 3);
                                 int before = st->internal_state.state;
@@ -546,6 +549,72 @@ struct DeflateSession {
                         }
                 }
                 finish();
+        }
+
+        void inject_invalid(int which, uint64_t val)
+        {
+                which = 1 + (int) ((unsigned) which % 4);
+                if (which >= 3 && level == 0)
+                        which = 1 + (which & 1);
+                uint32_t feed = (uint32_t) std::min<size_t>(data.size() - fed, 1 + val % 64);
+                uint32_t pending = st->avail_in;
+                Slot *si = g_arena.alloc(pending + feed, place, "in_chunk", 0, 1), *so = g_arena.alloc(64, PLACE_END, "out_chunk", fill + 77, 1);
+                if (!si || !so) {
+                        budget();
+                        return;
+                }
+                if (pending)
+                        memcpy(si->data, st->next_in, pending);
+                memcpy(si->data + pending, data.data() + fed, feed);
+                st->next_in = si->data;
+                st->avail_in = pending + feed;
+                st->next_out = so->data;
+                st->avail_out = 64;
+                std::vector<uint8_t> out_before(so->data, so->data + 64);
+                switch (which) {
+                case 1:
+                        st->level = 4 + (uint32_t) (val % 1000);
+                        COUNT("fault.bad_level");
+                        break;
+                case 2:
+                        st->flush = (uint16_t) (3 + val % 60000);
+                        COUNT("fault.bad_flush");
+                        break;
+                case 3:
+                        st->level_buf = nullptr;
+                        COUNT("fault.null_level_buf");
+                        break;
+                default: {
+                        uint32_t minsz = level_buf_size_for(level, 0, 0);
+                        st->level_buf_size = minsz - 1 - (uint32_t) (val % minsz);
+                        COUNT("fault.undersized_level_buf");
+                }
+                }
+                uint32_t ti0 = st->total_in, to0 = st->total_out, ai0 = st->avail_in;
+                int st0 = st->internal_state.state;
+                int ret = 0;
+                calls++;
+                h.calls++;
+                h.unusual++;
+                if (GUARDED(gc, ret = isal_deflate(st))) {
+                        report_fault(rr, h, gc.fi, "isal_deflate (invalid parameter)");
+                        return;
+                }
+                h.rec("inject", { which, ret, st0, st->internal_state.state });
+                h.sigmix(0xbad0 + which);
+                if (ret >= 0) {
+                        rr.fail("C10.invalid_param_accepted", strf("streaming call %u with invalid parameter kind %d (level %u flush %u level_buf %s size %u) returned %d", calls, which, st->level, st->flush, st->level_buf ? "set" : "NULL", st->level_buf_size, ret));
+                        return;
+                }
+                if (memcmp(out_before.data(), so->data, 64) || st->next_out != so->data || st->avail_out != 64 || st->total_out != to0) {
+                        rr.fail("C10.invalid_param_output", strf("streaming call %u: invalid parameter kind %d rejected (%d) after output was produced or output counters moved", calls, which, ret));
+                        return;
+                }
+                if (st->next_in != si->data || st->avail_in != ai0 || st->total_in != ti0) {
+                        rr.fail("C10.invalid_param_counters", strf("streaming call %u: invalid parameter kind %d rejected (%d) but input counters moved", calls, which, ret));
+                        return;
+                }
+                COUNT("probe.invalid_param_refused");
         }
 
         bool late_dict(uint32_t n, uint64_t seed)
@@ -651,6 +720,12 @@ static Json gen_deflate(Rng &r0, const std::string &focus, int tier)
                 if (rio.chance(1, 40)) {
                         Json o = Json::arr();
                         o.push(2).push((int) rio.below(3));
+                        ops.push(o);
+                        continue;
+                }
+                if (rio.chance(1, focus == "C10" ? 25 : 300)) {
+                        Json o = Json::arr();
+                        o.push(4).push((int) rio.below(4)).push((int) rio.below(70000));
                         ops.push(o);
                         continue;
                 }
